@@ -82,14 +82,14 @@ CHECKS = {
         'with the caller\'s value. Numeric equality of the two fits follows from "same function, same arguments" and is not separately decided.'),
   note=TB),
  'C09': dict(
-  technique='static analysis: axis agreement of order-statistic selections (ndim inferred from producers), sibling rule over all np.cov sites, symbolic matrix-algebra evaluation of Covariance.fit and RCA\'s inverse square root, structural rules on RCA centring and LFDA ordering / embedding table',
+  technique='static analysis: axis agreement of order-statistic selections (ndim inferred from producers), sibling rule over all np.cov sites, symbolic matrix-algebra evaluation of Covariance.fit and RCA\'s inverse square root, structural rules on RCA centring and LFDA ordering / embedding table, algebra of powers of distances for LFDA\'s affinity, reachability of branch statements on representatives of (dim, d)',
   text=('Decides ONLY structural necessary conditions of the closed forms: every rank selection after partition/argpartition/sort/'
         'argsort picks on the ordered axis; every np.cov call on samples-by-features data passes rowvar=False; Covariance.fit stores L '
         'with L^T L = exactly one (pseudo-)inversion of cov(X); RCA centres each chunk with the mean of exactly its own rows, keeps only '
         'rows with chunk != -1, and _inv_sqrtm is V Diag(w^-1/2) V^T; LFDA keeps eigenvectors by decreasing eigenvalue, stores vecs.T '
         'and handles exactly the documented embedding_type values; the LFDA scatter accumulation statements, as linear combinations '
         'with exact rational coefficients in n and n_c, equal the pairwise-defined local scatters (this rule found the tSw sign defect, '
-        'repaired); RCA\'s inner covariance uses bias=1 and every chunk id is centred; on every path RCA stores W = _inv_sqrtm(S) R with R C R^T = S for the inner covariance C, so that W C W^T = I follows from the certified spectral form. Equality of the learned matrix with the documented formula on any '
+        'repaired); RCA\'s inner covariance uses bias=1 and every chunk id is centred; on every path RCA stores W = _inv_sqrtm(S) R with R C R^T = S for the inner covariance C, so that W C W^T = I follows from the certified spectral form; when RCA reduces, the kept eigenvectors are those of T^-1 C with the smallest (or C^-1 T with the largest) eigenvalues and the reduction is reachable whenever dim < d; Covariance takes the element-wise reciprocal only of a 1x1 matrix; LFDA selects the rows of one class, forms exp(-D^2 / (sigma_i sigma_j)) with D^2 the squared Euclidean distances and sigma the square root of an order statistic at a per-class clipped rank (this rule found the rank carried across classes, repaired), zeroes the 0/0 entries, hands the solver a S + b S^T (a + b = 1) of the accumulated scatters, and every solver call in _eigh poses (S_b, S_w) in this order for the largest eigenvalues; the weighted embedding scales with the re-ordered eigenvalues. Equality of the learned matrix with the documented formula on any '
         'dataset (scatter algebra, whitening identity, singular covariances) is NOT decided. Known finding: LFDA local-scale axis.'),
   note=TB),
  'C10': dict(
